@@ -53,6 +53,7 @@ struct Line
     }
 };
 
+static bool g_null_empty; // a side of order 0 gets null pointers for its coefficients and its history (a pure FIR set up without denominator storage)
 struct Filter
 {
     std::vector<double> num, den;
@@ -63,7 +64,8 @@ struct Filter
     {
         for (double v : num) { nump.push_back((a_real)v); }
         for (double v : den) { denp.push_back((a_real)v); }
-        a_tf_init(&tf, (unsigned)num.size(), nump.data(), in.p(), (unsigned)den.size(), denp.data(), out.p());
+        bool n0 = g_null_empty && num.empty(), d0 = g_null_empty && den.empty();
+        a_tf_init(&tf, (unsigned)num.size(), n0 ? nullptr : nump.data(), n0 ? nullptr : in.p(), (unsigned)den.size(), d0 ? nullptr : denp.data(), d0 ? nullptr : out.p());
     }
     std::string state() const
     {
@@ -196,6 +198,7 @@ static void tf_all(bool thorough)
                     ++filters;
                     words(num, den, depth, -1);
                     for (int z = 1; z < depth; z += 2) { words(num, den, depth, z); }
+                    if (nn == 0 || dn == 0) { g_null_empty = true; words(num, den, depth, -1); words(num, den, depth, 1); g_null_empty = false; }
                     // linearity / time invariance on a sub-family (every filter whose coefficient code is a multiple of 3, all of them in thorough)
                     if (thorough || (cn + cd) % 3 == 0) { lti(num, den, ldepth); }
                     R.tick();
